@@ -168,7 +168,9 @@ def write_roms(path, G, times, U, V, extra=None, storage="f8", write_vtransform=
                     off = float(np.round(arr.mean(), 3)) if arr.size else 0.0
                 v = nc.createVariable(name, "i2", dims)
                 v.set_auto_maskandscale(False)
-                raw = np.clip(np.round((arr - off) / scale), -32000, 32000).astype("i2")
+                # 'i2full': the packing saturates at both ends of the int16 range (-32768 and 32767 occur on file)
+                lo_, hi_ = (-32768, 32767) if storage[0] == "i2full" else (-32000, 32000)
+                raw = np.clip(np.round((arr - off) / scale), lo_, hi_).astype("i2")
                 v[:] = raw
                 v.scale_factor = np.float32(scale)
                 v.add_offset = np.float32(off)
